@@ -13,10 +13,10 @@ import (
 
 func init() {
 	register("C11", Prop{
-		NeedSSA: false,
-		Run:     runC11,
+		NeedSSA:     false,
+		Run:         runC11,
 		Explanation: "R11.1 every row {Name, Fn, Exargs} of the builtin-type method tables is well-typed against the real library: Fn resolves to an object of the loaded standard library (or the universe), its signature has at least 1+len(Exargs) parameters, the table's receiver type is assignable to parameter 0 (len/cap: admissible operand), each extra-argument constant is representable in the corresponding trailing parameter type, names are unique per table; the call rewriting appends the extra arguments after the user's arguments in table order",
-		NotDecided: "the meaning of any lowering (map/any member sugar, optional parameters, enumerators, inline closures, big-number literals); rows whose package is supplied by configuration (PkgPathOsx)",
+		NotDecided:  "the meaning of any lowering (map/any member sugar, optional parameters, enumerators, inline closures, big-number literals); rows whose package is supplied by configuration (PkgPathOsx)",
 	})
 }
 
